@@ -364,6 +364,9 @@ public:
     void finalize()
     {
         for (auto& deferred_write : m_deferred_writes) {
+            // The directory may have gone with the last file which a later patch of this run removed from it.
+            ensure_parent_directories(deferred_write.destination_path);
+
             deferred_write.prepare_callback(deferred_write.destination_path);
             File file(deferred_write.destination_path, std::ios_base::out | std::ios::trunc);
             deferred_write.source.write_entire_contents_to(file);
